@@ -295,7 +295,8 @@ func c06Block(c *mc.Ctx) {
 	special := mc.Pick(c, append(append([]string{}, c06cells...), strings.Repeat("O", 65536), strings.Repeat("P", 70000)))
 	sr, sc := c.Choose(ifInt(nrows > 3, 3, nrows)), c.Choose(ncols)
 	crossing := c.Choose(2) == 1 && ncols == 3
-	pkc := c.Choose(ncols + 1)
+	pkOpts := orderedPKs[ncols]
+	pkSel := pkOpts[c.Choose(len(pkOpts))]
 	c.Shard()
 	rows := make([][]string, nrows)
 	for i := range rows {
@@ -314,8 +315,8 @@ func c06Block(c *mc.Ctx) {
 		rows[0][sc] = "tail"
 	}
 	var pk []uint32
-	if pkc > 0 {
-		pk = []uint32{uint32(pkc - 1)}
+	for _, p := range pkSel {
+		pk = append(pk, uint32(p))
 	}
 	desc := fmt.Sprintf("block rows=%d cols=%d cell(%d,%d)=%s crossing64K=%v pk=%v", nrows, ncols, sr, sc, shortStr(special), crossing, pk)
 	c.Logf("%s", desc)
